@@ -1,6 +1,389 @@
-//! C30 — not implemented yet.
+//! C30 — The reported result schema describes the returned rows.
+//!
+//! Generator: sqlgen's full grammar (60 %) plus hand-written shapes the grammar
+//! lacks: window functions, GROUPING SETS / ROLLUP / CUBE with GROUPING(),
+//! VALUES (bare and as a derived table with column aliases), `SELECT *` /
+//! `t.*` over joins and self-joins (duplicate column names), aliases that
+//! collide with or swap column names, unaliased aggregates / expressions /
+//! literals, CAST and comparison outputs, set operations. Tables as C01's, both
+//! as memory tables (random batch cuts) and as Parquet.
+//! Oracle: for every statement that plans and executes, `QueryResult.schema`
+//! and `ctx.physical_plan(sql).schema()` have the same column count, names and
+//! types (up to nullability and dictionary encoding) as EVERY returned batch.
+//! (The Flight GetSchema leg belongs to the Flight checks.)
 use super::Property;
+use crate::data::*;
+use crate::engine::*;
+use crate::runner::*;
+use crate::sqlast::*;
+use crate::sqlgen::*;
+use arrow::datatypes::{DataType, Schema};
+use proptest::prelude::*;
+use proptest::strategy::BoxedStrategy;
+use query_engine::ExecutionContext;
+use serde::{Deserialize, Serialize};
+
+#[derive(Clone, Debug, Serialize, Deserialize)]
+pub struct SchemaCase {
+    pub tables: Vec<Table>,
+    pub sql: String,
+    pub cuts: Vec<Vec<usize>>,
+    pub layouts: Vec<ParquetLayout>,
+    pub shape: String,
+    /// the select list has at least one computed (non-column) output
+    pub computed: bool,
+}
+
+fn norm_type(t: &DataType) -> DataType {
+    match t {
+        DataType::Dictionary(_, v) => norm_type(v),
+        o => o.clone(),
+    }
+}
+
+fn sig(s: &Schema) -> Vec<(String, DataType)> {
+    s.fields().iter().map(|f| (f.name().clone(), norm_type(f.data_type()))).collect()
+}
+
+fn fmt_sig(s: &[(String, DataType)]) -> String {
+    s.iter().map(|(n, t)| format!("{}: {:?}", n, t)).collect::<Vec<_>>().join(", ")
+}
+
+// ---------------------------------------------------------------------------
+// hand-written shapes
+// ---------------------------------------------------------------------------
+
+struct H<'a> {
+    t: Tape,
+    tables: &'a [Table],
+}
+
+impl<'a> H<'a> {
+    fn table(&mut self) -> &'a Table {
+        &self.tables[self.t.pick(self.tables.len())]
+    }
+    fn col(&mut self, t: &'a Table) -> &'a Column {
+        &t.cols[self.t.pick(t.cols.len())]
+    }
+    fn num_col(&mut self, t: &'a Table) -> Option<&'a Column> {
+        let v: Vec<&Column> = t.cols.iter().filter(|c| c.ty.is_numeric()).collect();
+        if v.is_empty() {
+            None
+        } else {
+            Some(v[self.t.pick(v.len())])
+        }
+    }
+
+    fn window(&mut self) -> String {
+        let t = self.table();
+        let (a, b, c) = (self.col(t).name.clone(), self.col(t).name.clone(), self.col(t).name.clone());
+        let num = self.num_col(t).map(|c| c.name.clone());
+        let f = match (self.t.pick(8), &num) {
+            (0, _) => "ROW_NUMBER()".to_string(),
+            (1, _) => "RANK()".to_string(),
+            (2, _) => "DENSE_RANK()".to_string(),
+            (3, Some(n)) => format!("SUM({})", n),
+            (4, _) => "COUNT(*)".to_string(),
+            (5, _) => format!("LAG({})", c),
+            (6, _) => format!("FIRST_VALUE({})", c),
+            (7, Some(n)) => format!("AVG({})", n),
+            _ => format!("MAX({})", c),
+        };
+        let part = if self.t.chance(60) { format!("PARTITION BY {} ", b) } else { String::new() };
+        let alias = if self.t.chance(50) { " AS w".to_string() } else { String::new() };
+        let extra = if self.t.chance(40) { format!(", {} + 0", num.clone().unwrap_or_else(|| "1".into())) } else { String::new() };
+        format!("SELECT {}, {} OVER ({}ORDER BY {}){}{} FROM {}", a, f, part, a, alias, extra, t.name)
+    }
+
+    fn grouping_sets(&mut self) -> String {
+        let t = self.table();
+        let (a, b) = (self.col(t).name.clone(), self.col(t).name.clone());
+        let b = if a == b { t.cols.iter().map(|c| c.name.clone()).find(|n| *n != a).unwrap_or(b) } else { b };
+        let num = self.num_col(t).map(|c| c.name.clone());
+        let agg = match (self.t.pick(4), &num) {
+            (0, _) => "COUNT(*)".to_string(),
+            (1, Some(n)) => format!("SUM({})", n),
+            (2, Some(n)) => format!("AVG({}) AS av", n),
+            _ => format!("MIN({})", b),
+        };
+        let grp = match self.t.pick(3) {
+            0 => format!("ROLLUP ({}, {})", a, b),
+            1 => format!("CUBE ({}, {})", a, b),
+            _ => format!("GROUPING SETS (({}, {}), ({}), ())", a, b, a),
+        };
+        let g = if self.t.chance(50) { format!(", GROUPING({})", a) } else { String::new() };
+        format!("SELECT {}, {}, {}{} FROM {} GROUP BY {}", a, b, agg, g, t.name, grp)
+    }
+
+    fn values(&mut self) -> String {
+        let n = 1 + self.t.pick(3);
+        let w = 1 + self.t.pick(3);
+        let mut rows = vec![];
+        for r in 0..n {
+            let mut cells = vec![];
+            for k in 0..w {
+                cells.push(match (k + self.t.pick(2)) % 4 {
+                    0 => format!("{}", r + k),
+                    1 => format!("'s{}'", r),
+                    2 => {
+                        if self.t.chance(30) {
+                            "NULL".to_string()
+                        } else {
+                            format!("{}.5", r)
+                        }
+                    }
+                    _ => if r % 2 == 0 { "TRUE" } else { "FALSE" }.to_string(),
+                });
+            }
+            rows.push(format!("({})", cells.join(", ")));
+        }
+        // columns must have one type: regenerate column-wise consistent rows
+        let mut rows2 = vec![];
+        for r in 0..n {
+            let mut cells = vec![];
+            for k in 0..w {
+                cells.push(match k % 3 {
+                    0 => format!("{}", r + k),
+                    1 => format!("'s{}'", r),
+                    _ => format!("{}.5", r),
+                });
+            }
+            rows2.push(format!("({})", cells.join(", ")));
+        }
+        let _ = rows;
+        let body = format!("VALUES {}", rows2.join(", "));
+        match self.t.pick(3) {
+            0 => body,
+            1 => format!("SELECT * FROM ({}) AS v", body),
+            _ => {
+                let names: Vec<String> = (0..w).map(|k| format!("x{}", k)).collect();
+                format!("SELECT {} FROM ({}) AS v ({})", names[0], body, names.join(", "))
+            }
+        }
+    }
+
+    fn star_join(&mut self) -> String {
+        let t = self.table();
+        let u = self.table();
+        let (a, b) = (self.col(t).name.clone(), self.col(u).name.clone());
+        let kind = ["INNER JOIN", "LEFT JOIN", "FULL OUTER JOIN", "CROSS JOIN"][self.t.pick(4)];
+        let on = if kind == "CROSS JOIN" { String::new() } else { format!(" ON t1.{} IS NOT DISTINCT FROM t2.{}", a, b) };
+        let on = if self.t.chance(70) && kind != "CROSS JOIN" && t.cols.iter().find(|c| c.name == a).map(|c| c.ty) == u.cols.iter().find(|c| c.name == b).map(|c| c.ty) { format!(" ON t1.{} = t2.{}", a, b) } else { on };
+        let items = match self.t.pick(4) {
+            0 => "*".to_string(),
+            1 => "t1.*".to_string(),
+            2 => format!("t2.*, t1.{}", a),
+            _ => format!("t1.{}, *", a),
+        };
+        format!("SELECT {} FROM {} AS t1 {} {} AS t2{}", items, t.name, kind, u.name, on)
+    }
+
+    fn alias_collision(&mut self) -> String {
+        let t = self.table();
+        let (a, b) = (self.col(t).name.clone(), self.col(t).name.clone());
+        match self.t.pick(4) {
+            0 => format!("SELECT {} AS {}, {} AS {} FROM {}", a, b, b, a, t.name),
+            1 => format!("SELECT {} AS {}, {} FROM {} ORDER BY {}", a, b, b, t.name, b),
+            2 => format!("SELECT {} AS x, {} AS x FROM {}", a, b, t.name),
+            _ => format!("SELECT {a} AS {a}, COUNT(*) AS {b} FROM {t} GROUP BY {a}", a = a, b = b, t = t.name),
+        }
+    }
+
+    fn unaliased(&mut self) -> String {
+        let t = self.table();
+        let a = self.col(t).name.clone();
+        let num = self.num_col(t).map(|c| c.name.clone());
+        let n = num.clone().unwrap_or_else(|| "1".to_string());
+        match self.t.pick(6) {
+            0 => format!("SELECT COUNT(*), MIN({}), MAX({}) FROM {}", a, a, t.name),
+            1 => format!("SELECT {}, COUNT(*), SUM({}), AVG({}) FROM {} GROUP BY {}", a, n, n, t.name, a),
+            2 => format!("SELECT {} + 1, {} * 2.5, - {}, {} = {} FROM {}", n, n, n, a, a, t.name),
+            3 => format!("SELECT 1, 'x', NULL, TRUE, 2.5, CAST({} AS DOUBLE), CAST({} AS VARCHAR) FROM {}", n, a, t.name),
+            4 => format!("SELECT CASE WHEN {} IS NULL THEN 0 ELSE 1 END, COALESCE({}, {}), {} IS NULL, {} BETWEEN {} AND {} FROM {}", a, a, a, a, a, a, a, t.name),
+            _ => format!("SELECT DISTINCT {}, COUNT(DISTINCT {}) FROM {} GROUP BY {} ORDER BY 1 LIMIT 3", a, a, t.name, a),
+        }
+    }
+
+    fn set_op(&mut self) -> String {
+        let t = self.table();
+        let a = self.col(t).name.clone();
+        let op = ["UNION", "UNION ALL", "INTERSECT", "EXCEPT"][self.t.pick(4)];
+        format!("SELECT {} AS first_name, 1 AS one FROM {} {} SELECT {} AS second_name, 2 FROM {}", a, t.name, op, a, t.name)
+    }
+}
+
+fn schema_case(tier: Tier) -> BoxedStrategy<SchemaCase> {
+    let mut tp = TableProfile::default();
+    tp.max_rows = tier.pick(10, 40);
+    let max_rows = tp.max_rows;
+    (
+        tables_strategy(tp),
+        proptest::collection::vec(any::<u16>(), 1..200),
+        proptest::collection::vec(proptest::collection::vec(0..=max_rows, 0..3), 3),
+        proptest::collection::vec(parquet_layout_strategy(max_rows), 3),
+    )
+        .prop_map(|(mut tables, tape, cuts, layouts)| {
+            // three quarters of the cases use table-unique column names (shared bare names
+            // across joined tables are an open finding of their own)
+            if tape.last().map(|x| x % 4 != 0).unwrap_or(true) {
+                for t in tables.iter_mut() {
+                    let p = t.name.clone();
+                    for col in t.cols.iter_mut() {
+                        col.name = format!("{}{}", p, col.name);
+                    }
+                }
+            }
+            let shape_sel = tape[0];
+            let rest: Vec<u16> = tape[1..].to_vec();
+            let k = pick_idx(shape_sel, 20);
+            let (sql, shape, computed) = if k < 10 {
+                let profile = Profile::full();
+                let mut g = Gen::new(rest, &profile);
+                let (q, _) = g.query(&Catalog::of(&tables), 2);
+                let computed = match &q.body {
+                    SetExpr::Select(s) => s.items.iter().any(|i| !matches!(i, Item::Expr(Expr::Col { .. }, _) | Item::Star | Item::QStar(_))),
+                    _ => true,
+                };
+                (q.sql(), "sqlgen", computed)
+            } else {
+                let mut h = H { t: Tape::new(rest), tables: &tables };
+                match k {
+                    10 | 11 => (h.window(), "window", true),
+                    12 | 13 => (h.grouping_sets(), "grouping_sets", true),
+                    14 => (h.values(), "values", true),
+                    15 | 16 => (h.star_join(), "star_join", false),
+                    17 => (h.alias_collision(), "alias_collision", false),
+                    18 => (h.unaliased(), "unaliased", true),
+                    _ => (h.set_op(), "set_op", true),
+                }
+            };
+            let n = tables.len();
+            SchemaCase { tables, sql, cuts: cuts.into_iter().take(n).collect(), layouts: layouts.into_iter().take(n).collect(), shape: shape.to_string(), computed }
+        })
+        .boxed()
+}
+
+/// Signatures of C30's open findings: (shape, message) -> id
+fn classify(c: &SchemaCase, reported: &[(String, DataType)], got: &[(String, DataType)]) -> Option<&'static str> {
+    let sql = c.sql.to_uppercase();
+    let names = |s: &[(String, DataType)]| s.iter().map(|x| x.0.clone()).collect::<Vec<_>>();
+    let types = |s: &[(String, DataType)]| s.iter().map(|x| x.1.clone()).collect::<Vec<_>>();
+    // two output columns of the same name: the second is looked up by name and returns the first
+    let rn = names(reported);
+    if (0..rn.len()).any(|i| rn[i + 1..].contains(&rn[i])) {
+        return Some("duplicate-output-column-names");
+    }
+    // a set operation returns the batches of its second branch under that branch's own column names
+    let widen = |t: &DataType| if *t == DataType::Int32 { DataType::Int64 } else { t.clone() };
+    let same_types = types(reported).iter().map(widen).collect::<Vec<_>>() == types(got).iter().map(widen).collect::<Vec<_>>();
+    if [" UNION ", " INTERSECT ", " EXCEPT "].iter().any(|k| sql.contains(k)) && reported.len() == got.len() && names(reported) != names(got) && same_types {
+        return Some("set-operation-branch-column-names");
+    }
+    // same names, a column differs only by integer width: INTEGER arithmetic / aggregates are
+    // planned as BIGINT but computed as INTEGER (or the reverse)
+    if names(reported) == names(got) {
+        let diff: Vec<(&DataType, &DataType)> = reported.iter().zip(got.iter()).filter(|(a, b)| a.1 != b.1).map(|(a, b)| (&a.1, &b.1)).collect();
+        if !diff.is_empty() && diff.iter().all(|(a, b)| matches!((a, b), (DataType::Int64, DataType::Int32) | (DataType::Int32, DataType::Int64))) {
+            return Some("integer-width-plan-vs-batch");
+        }
+        // FULL OUTER JOIN NULL-extension rows are assembled with another column's type
+        if !diff.is_empty() && sql.contains("FULL OUTER JOIN") {
+            return Some("full-join-null-extension-column-type");
+        }
+    }
+    None
+}
+
+pub struct SchemaMatchesRows;
+
+impl Check for SchemaMatchesRows {
+    type Case = SchemaCase;
+    fn name(&self) -> &'static str {
+        "schema_matches_rows"
+    }
+    fn rule(&self) -> &'static str {
+        "the statement executes, returns >= 1 row, and its select list has >= 1 computed (non-column) output"
+    }
+    fn cases(&self, tier: Tier) -> u32 {
+        tier.pick(2000, 60_000)
+    }
+    fn strategy(&self, tier: Tier) -> BoxedStrategy<SchemaCase> {
+        schema_case(tier)
+    }
+    fn test(&self, c: &SchemaCase, obs: &mut Obs) -> Verdict {
+        obs.label(format!("shape:{}", c.shape));
+        obs.sample(serde_json::json!({ "sql": c.sql }));
+        let mut mem = ExecutionContext::new();
+        for (i, t) in c.tables.iter().enumerate() {
+            register_mem(&mut mem, t, c.cuts.get(i).map(|v| v.as_slice()).unwrap_or(&[]));
+        }
+        let dir = TempDir::new("c30");
+        let mut pq = ExecutionContext::new();
+        for (i, t) in c.tables.iter().enumerate() {
+            let l = c.layouts.get(i).cloned().unwrap_or_else(ParquetLayout::single);
+            if let Err(e) = register_parquet(&mut pq, t, dir.path(), &l) {
+                return Verdict::Discard(format!("parquet_registration:{}", crate::sqlcheck::short_err(&e)));
+            }
+        }
+        for (ctx, tag) in [(&mem, "memory"), (&pq, "parquet")] {
+            let ans = match run_sql_full(ctx, &c.sql) {
+                Ok(a) => a,
+                Err(e) => {
+                    obs.label(format!("{}:error:{}", tag, crate::sqlcheck::short_err(&e)));
+                    continue;
+                }
+            };
+            let rows: usize = ans.batches.iter().map(|b| b.num_rows()).sum();
+            obs.label(format!("{}:{}", tag, if rows > 0 { "rows" } else { "no_rows" }));
+            obs.nontrivial(rows > 0 && c.computed);
+            let reported = sig(&ans.schema);
+            let fail = |msg: String, rep: &[(String, DataType)], got: &[(String, DataType)]| {
+                let full = format!("[{}] {}\n sql: {}\n tables: {}", tag, msg, c.sql, crate::sqlcheck::fmt_tables(&c.tables));
+                match classify(c, rep, got) {
+                    Some(id) => Verdict::Known { id: id.to_string(), msg: full },
+                    None => Verdict::Fail(full),
+                }
+            };
+            for (bi, b) in ans.batches.iter().enumerate() {
+                let got = sig(&b.schema());
+                if got != reported {
+                    return fail(format!("QueryResult.schema [{}] does not describe returned batch #{} [{}] ({} rows)", fmt_sig(&reported), bi, fmt_sig(&got), b.num_rows()), &reported, &got);
+                }
+                // the batch's own columns must be what its schema says
+                for (ci, col) in b.columns().iter().enumerate() {
+                    if norm_type(col.data_type()) != got[ci].1 {
+                        return fail(format!("batch #{} column {} holds {:?} but its schema says {:?}", bi, ci, col.data_type(), got[ci].1), &reported, &got);
+                    }
+                }
+            }
+            match std::panic::catch_unwind(std::panic::AssertUnwindSafe(|| ctx.physical_plan(&c.sql))) {
+                Ok(Ok(p)) => {
+                    let planned = sig(&p.schema());
+                    if planned != reported {
+                        return fail(format!("physical_plan(sql).schema() [{}] differs from QueryResult.schema [{}]", fmt_sig(&planned), fmt_sig(&reported)), &planned, &reported);
+                    }
+                    for (bi, b) in ans.batches.iter().enumerate() {
+                        if sig(&b.schema()) != planned {
+                            return fail(format!("physical_plan(sql).schema() [{}] does not describe returned batch #{} [{}]", fmt_sig(&planned), bi, fmt_sig(&sig(&b.schema()))), &planned, &sig(&b.schema()));
+                        }
+                    }
+                }
+                Ok(Err(e)) => obs.label(format!("{}:physical_plan_error:{}", tag, crate::sqlcheck::short_err(&e.to_string()))),
+                Err(_) => obs.label(format!("{}:physical_plan_panic", tag)),
+            }
+        }
+        Verdict::Pass
+    }
+}
 
 pub fn property() -> Property {
-    Property { id: "C30", level: "exploration", assumptions: &[], checks: vec![] }
+    Property {
+        id: "C30",
+        level: "exploration",
+        assumptions: &[
+            "'up to nullability and dictionary encoding': Dictionary(_, T) is read as T; field nullability and metadata are ignored; names and all other types must match exactly",
+            "statements that fail to plan or execute are outside the property (labelled); the Flight GetSchema leg is exercised by the Flight checks, not here",
+        ],
+        checks: vec![Box::new(SchemaMatchesRows)],
+    }
 }
